@@ -5,7 +5,7 @@ arbitrary entry: symbolic key string, abstract value) gives the whole-mapping st
 recursive calls on sub-filters are replaced by the contract itself (structural induction)."""
 import z3
 
-from pyvc.core import NativeStub, Sym, Unsupported
+from pyvc.core import NativeStub, RaiseSignal, SBool, Sym, Unsupported
 from pyvc.theory_str import SStr, lit
 from pyvc.verify import Contract, Ctx
 
@@ -279,3 +279,88 @@ CONTRACTS = [AddPrefixEntry(), RootKeysEntry()]
 
 
 RootKeysEntry.witness = _leaf_witness("_root_keys")
+
+
+# ============================================================================= _cast: command-line token -> value
+
+
+class STokenStr(Sym):
+    """a command-line token that is none of the reserved words; what int() / float() make of it is decided symbolically"""
+
+    def sym_hashable(self):
+        return True
+
+    def sym_isinstance(self, ex, cls):
+        return cls in (str, object)
+
+    def sym_eq(self, ex, other):
+        if other in ("true", "false", "null", "True", "False", "None", "none"):
+            return False
+        raise Unsupported("comparison of the token with this value")
+
+
+class SNumTok(Sym):
+    """kind 'int': the exact integer the token spells; 'float': the float nearest to what it spells; other kinds: derived values"""
+
+    def __init__(self, kind):
+        self.kind = kind
+
+    def sym_getattr(self, ex, name):
+        if name == "is_integer" and self.kind.startswith("float"):
+            return NativeStub(lambda: SBool(z3.Bool("float_value_is_integral")), "float.is_integer")
+        raise Unsupported(f"numeric attribute .{name}")
+
+
+class CastCtx(Ctx):
+    def __init__(self, contract, case):
+        super().__init__(contract, case)
+        self.callee_contracts["signac._utility._print_err"] = lambda interp, b: self.ghost.setdefault("warned", []).append(b)
+
+    def sym_index(self, ex, o, k):
+        if isinstance(o, dict) and isinstance(k, STokenStr):
+            raise RaiseSignal(KeyError(k))
+        return super().sym_index(ex, o, k)
+
+    def builtin_hook(self, interp, f, args, kw):
+        ex = interp.ex
+        if f in (int, float) and len(args) == 1 and isinstance(args[0], STokenStr) and not kw:
+            is_int, is_float = z3.Bool("token_is_an_integer_literal"), z3.Bool("token_is_a_float_literal")
+            ex.assume(z3.Implies(is_int, is_float))        # every integer literal is also accepted by float()
+            if not ex.decide(is_int if f is int else is_float, f"{f.__name__}(token) succeeds"):
+                raise RaiseSignal(ValueError(f"invalid literal for {f.__name__}()"))
+            return SNumTok(f.__name__)
+        if f in (int, float) and len(args) == 1 and isinstance(args[0], SNumTok) and not kw:
+            return SNumTok(f"{f.__name__}-of-{args[0].kind}")       # a conversion of a conversion: in general another value (float rounds beyond 2**53)
+        return super().builtin_hook(interp, f, args, kw)
+
+
+class Cast(Contract):
+    target = f"{FP}._cast"
+    properties = ("C07",)
+    ctx_class = CastCtx
+
+    def cases(self):
+        return [{"tok": t} for t in ("true", "false", "null", "True", "None", "none", "False", "other")]
+
+    def setup(self, interp, case):
+        tok = STokenStr() if case["tok"] == "other" else case["tok"]
+        return [tok], {}, {"tok": tok}
+
+    def post(self, interp, case, pre, outcome):
+        ex, g = interp.ex, interp.ctx.ghost
+        if outcome[0] != "return":
+            ex.oblige(self.oname("raises:nothing"), False, note=repr(outcome[1]))
+            return
+        r, t = outcome[1], case["tok"]
+        if t in ("true", "false", "null"):
+            ex.oblige(self.oname("ensures:the_reserved_words_true_false_null_are_the_JSON_constants"), z3.BoolVal(r is {"true": True, "false": False, "null": None}[t]), note=repr(r))
+        elif t != "other":
+            ex.oblige(self.oname("ensures:Python_spellings_of_the_constants_stay_strings_(with_a_hint)"), z3.BoolVal(r == t and bool(g.get("warned"))), note=repr((r, g.get("warned"))))
+        else:
+            is_int, is_float = z3.Bool("token_is_an_integer_literal"), z3.Bool("token_is_a_float_literal")
+            kind = (r.kind if r.kind in ("int", "float") else "other") if isinstance(r, SNumTok) else "str" if r is pre["tok"] else "other"
+            ex.oblige(self.oname("ensures:an_integer_literal_is_its_exact_int_value,_another_numeric_literal_its_float_value,_anything_else_the_token_itself"),
+                      z3.And(z3.BoolVal(kind != "other"), z3.BoolVal(kind == "int") == is_int, z3.BoolVal(kind == "float") == z3.And(is_float, z3.Not(is_int))), note=repr(r))
+
+
+CONTRACTS += [Cast()]
